@@ -13,6 +13,22 @@ ROOT = os.path.dirname(HERE)
 sys.path.insert(0, HERE)
 from mutants import MUTANTS  # noqa: E402
 
+# reverting a repair is a mutant too (the pinned tree passes the baseline suite): (name, grep pattern of the fix commit subject)
+REVERTS = [
+    ("C01_revertfix_F1", "never select an already selected"), ("C06_revertfix_F2", "VoronoiFPS accepts n_to_select=None"),
+    ("C08_revertfix_F3", "warm-started CUR keeps"), ("C05_revertfix_F4", "uses the train-train kernel"),
+    ("C05_revertfix_F5", "centers the test-test kernel"), ("C10_revertfix_F6", "truncates the final solution"),
+    ("C10_revertfix_F7", "rank cutoff relative"), ("C10_revertfix_F8", "predictions and targets to the scorer"),
+    ("C13_revertfix_F9", "reconstruction distortion works"), ("C09_revertfix_F10", "does not scale the cutoff array"),
+    ("C09_revertfix_F11", "does not normalise the weights"), ("C09_revertfix_F12", "refitted without y after"),
+    ("C09_revertfix_F13", "refitted on a kernel of a"), ("C17_revertfix_F14", "effdim handles singular"),
+    ("C17_revertfix_F15", "fspread localisation calls"), ("C17_revertfix_F16", "bound the OAS shrinkage"),
+    ("C17_revertfix_F17", "scores queries near a grid point"), ("C03_revertfix_F18", "PCovR with regressor='precomputed' accepts"),
+    ("C05_revertfix_F19", "KernelPCovR with regressor='precomputed' handles"),
+]
+for _n, _g in REVERTS:
+    MUTANTS.append((_n, "@revert", _g, ""))
+
 def main():
     args = [a for a in sys.argv[1:] if not a.startswith("--")]
     suite = "--suite" in sys.argv
@@ -30,11 +46,20 @@ def main():
             if suite:
                 shutil.copytree("/repo/tests", os.path.join(tmp, "tests"))
                 shutil.copy("/repo/pyproject.toml", tmp)
-            p = os.path.join(tmp, "src", "skmatter", rel)
-            s = open(p).read()
-            if s.count(old) != 1:
-                out.append((name, "NOT-APPLICABLE(count=%d)" % s.count(old), 0)); print(out[-1]); continue
-            open(p, "w").write(s.replace(old, new))
+            if rel == "@revert":
+                sha = subprocess.run(["git", "-C", "/repo", "log", "--format=%H", "--fixed-strings", "--grep", old], capture_output=True, text=True).stdout.split()
+                if len(sha) != 1:
+                    out.append((name, "NOT-APPLICABLE(commits=%d)" % len(sha), 0)); print(out[-1]); continue
+                diff = subprocess.run(["git", "-C", "/repo", "show", "--format=", sha[0]], capture_output=True, text=True).stdout
+                pr = subprocess.run(["patch", "-R", "-p1", "-d", tmp, "--no-backup-if-mismatch"], input=diff, capture_output=True, text=True)
+                if pr.returncode != 0:
+                    out.append((name, "NOT-APPLICABLE(patch -R failed)", 0)); print(out[-1], pr.stdout[-300:]); continue
+            else:
+                p = os.path.join(tmp, "src", "skmatter", rel)
+                s = open(p).read()
+                if s.count(old) != 1:
+                    out.append((name, "NOT-APPLICABLE(count=%d)" % s.count(old), 0)); print(out[-1]); continue
+                open(p, "w").write(s.replace(old, new))
             env = dict(os.environ, VERIF_REPO=tmp)
             t = time.time()
             cmd = [os.path.join(ROOT, "check"), prop, "--no-evidence"]
